@@ -75,6 +75,8 @@ def apply_filter(xs, kernel, api, axis):
     from tracklib.algo.filtering import filter_seq
     if api == "operate":
         tr = mk(xs, "a")
+        if len(xs) % 2 == 0:            # history: the output feature exists already (an older result): it is replaced
+            tr.createAnalyticalFeature("out", [float(-5 - i) for i in range(len(xs))])
         tr.operate(Operator.FILTER, "a", kernel, "out")
         return [tr["out", i] for i in range(len(xs))]
     if api == "operate_inplace":
